@@ -148,6 +148,101 @@ let replay_cprune (f : itree) (g : itree) (h1 : itree) (log : Sexp.t list) : uni
     else bump "mirror_mismatch"
   | _ -> bump "mirror_not_a_tree"
 
+(* x-acprune begin ---------------------------------------------------------------------------------------------
+   arena-level machine of the pruned composition (Pwl/ACPrune.v: add_child_node / is_edge_feasible through the parent
+   pointers / remove_child / merge_child_with_parent on the dumped arena of the receiver, LP answers replayed by query
+   polytope) against the dumped arena of the result, cell by cell.  The dump does not contain the slab's free list, so
+   the keys of NEW nodes are compared up to a bijection (built from the root downwards); every decision of the
+   receiver must keep its key, value, state, parent.  In addition the run is repeated with an allocator that
+   simulates the slab (free list = stack; initial free list guessed as the holes of the dump in ascending order) and
+   identical arenas are counted (acprune_arena_exact_keys). *)
+let occupied_keys (a : acont arena) : int list =
+  List.concat (List.mapi (fun i o -> match o with Some _ -> [i] | None -> []) a)
+let slab_alloc (a0 : acont arena) : acont arena -> nat =
+  let len = ref (List.length a0) in
+  let free = ref (List.concat (List.mapi (fun i o -> match o with None -> [i] | Some _ -> []) a0)) in
+  let last : (int * int list) option ref = ref None in
+  fun a ->
+    let occ = occupied_keys a in
+    (match !last with
+     | Some (k, prev) ->
+       (* freed since the previous insertion: the child inserted then (removed at once when its edge was infeasible)
+          first, the merged node after it *)
+       let gone = List.filter (fun j -> not (List.mem j occ)) prev in
+       let gone = (if List.mem k gone then [k] else []) @ List.filter (fun j -> j <> k) gone in
+       List.iter (fun j -> free := j :: !free) gone
+     | None -> ());
+    let key = (match !free with j :: r -> free := r; j | [] -> let j = !len in len := j + 1; j) in
+    last := Some (key, key :: occ);
+    nat_of_int key
+let arena_iso (root : int) (pre : acont arena) (am : acont arena) (ar : acont arena) : string option =
+  let vm = Array.of_list am and vr = Array.of_list ar in
+  let get v i = if i < Array.length v then v.(i) else None in
+  let phi = Hashtbl.create 64 and psi = Hashtbl.create 64 in
+  let bad = ref None in
+  let fail s = if !bad = None then bad := Some s in
+  let onat = function None -> None | Some n -> Some (int_of_nat n) in
+  let rec go pm pr i j =
+    if Hashtbl.mem phi i || Hashtbl.mem psi j then fail (Printf.sprintf "key %d/%d reached twice" i j) else begin
+      Hashtbl.add phi i j; Hashtbl.add psi j i;
+      match get vm i, get vr j with
+      | Some c, Some d ->
+        if not (aff_eqb c.c_val.ac_aff d.c_val.ac_aff) then fail (Printf.sprintf "value differs at %d/%d" i j)
+        else if not (st_eqb c.c_val.ac_state d.c_val.ac_state) then fail (Printf.sprintf "state differs at %d/%d" i j)
+        else if c.c_leaf <> d.c_leaf then fail (Printf.sprintf "leaf flag differs at %d/%d" i j)
+        else if onat c.c_parent <> pm || onat d.c_parent <> pr then fail (Printf.sprintf "parent pointer wrong at %d/%d" i j)
+        else if List.length c.c_children <> List.length d.c_children then fail (Printf.sprintf "arity differs at %d/%d" i j)
+        else List.iter2 (fun x y -> match x, y with
+            | None, None -> ()
+            | Some x, Some y -> go (Some i) (Some j) (int_of_nat x) (int_of_nat y)
+            | _ -> fail (Printf.sprintf "child slots differ at %d/%d" i j)) c.c_children d.c_children
+      | _ -> fail (Printf.sprintf "missing cell %d/%d" i j)
+    end in
+  go None None root root;
+  let nm = List.length (occupied_keys am) and nr = List.length (occupied_keys ar) in
+  if !bad = None && (nm <> Hashtbl.length phi || nr <> Hashtbl.length phi) then
+    fail (Printf.sprintf "cells outside the tree: model %d, implementation %d, tree %d" nm nr (Hashtbl.length phi));
+  (* the decisions of the receiver keep their keys *)
+  List.iteri (fun i o -> match o with
+      | Some c when not c.c_leaf ->
+        if (try Hashtbl.find phi i <> i with Not_found -> true) then fail (Printf.sprintf "decision %d of the receiver moved" i)
+      | _ -> ()) pre;
+  !bad
+let replay_acprune ~id (f : itree) (g : itree) (h1 : itree) (log : Sexp.t list) : unit =
+  let lplog = List.filter_map (function
+      | List (Atom "lp" :: poly :: _ :: st :: _) ->
+        let p = aff_of poly in Some (List.combine p.a_mat p.a_bias, lpans_of st)
+      | _ -> None) log in
+  let af = arena_of f and ah = arena_of h1 in
+  let root = (match f.root with Some r -> r | None -> 0) in
+  match ptree_of g with
+  | None -> bump "acprune_arena_not_a_tree"
+  | Some pg ->
+    let big = nat_of_int (List.length af + 2 * ptree_size pg * (1 + List.length f.nodes) + 4) in
+    let run alloc = acompose_prune alloc (oracle_by_rows lplog) tol big (nat_of_int root) big pg af in
+    (match run next_key with
+     | None -> bump "acprune_arena_mismatch"; result id "MIRROR" "acprune-arena" "the arena-level machine does not return Ok"
+     | Some (am, k) ->
+       (match arena_iso root af am ah with
+        | None ->
+          bump "acprune_arena_agree";
+          if int_of_nat k.k_lp = List.length lplog then bump "acprune_arena_lp_count_agree"
+        | Some why -> bump "acprune_arena_mismatch"; result id "MIRROR" "acprune-arena" why));
+    (match run (slab_alloc af) with
+     | Some (am, _) ->
+       let strip a = List.rev (let rec drop = function None :: r -> drop r | l -> l in drop (List.rev a)) in
+       let cell_eq x y = (match x, y with
+           | None, None -> true
+           | Some c, Some d -> aff_eqb c.c_val.ac_aff d.c_val.ac_aff && st_eqb c.c_val.ac_state d.c_val.ac_state &&
+                               c.c_leaf = d.c_leaf && c.c_parent = d.c_parent && c.c_children = d.c_children
+           | _ -> false) in
+       let a1 = strip am and a2 = strip ah in
+       if List.length a1 = List.length a2 && List.for_all2 cell_eq a1 a2 then bump "acprune_arena_exact_keys"
+       else if List.for_all (fun o -> o <> None) af then bump "acprune_arena_exact_keys_miss_without_holes"
+       else bump "acprune_arena_exact_keys_miss_with_holes"
+     | None -> ())
+(* x-acprune end ----------------------------------------------------------------------------------------------- *)
+
 let check (case : Sexp.t) : unit =
   match case with
   | List [Atom "case"; Atom id; Atom "elim"; Atom gen; sb; Atom oc; sa; counter; List (Atom "log" :: log); sa2; counter2; List (Atom "pts" :: pts)] ->
@@ -215,6 +310,7 @@ let check (case : Sexp.t) : unit =
            | Some p0, Some p1, Some pf, Some pg ->
              if ptree_has_u pg || ptree_has_u pf then bump "partial";
              (try replay_cprune f g h1 log with Nonfinite -> bump "mirror_nonfinite");
+             (* x-acprune *) (try replay_acprune ~id f g h1 log with Nonfinite -> bump "acprune_arena_nonfinite");
              let ok1 = equiv_mod_thin ~id ~tag:"compose-prune-preserves" n p1 p0 in
              let ok2 = equiv_mod_thin ~id ~tag:"compose-prune-law" n p1 (compose pf pg) in
              let ok3 = points_check ~id ~tag:"evaluate" p1 pts in
